@@ -173,6 +173,26 @@ where
         }
     }
 
+    fn is_closed_compound(&self, compound: &dyn CompoundObject<U, E>) -> bool {
+        compound.children().all(|child| match child.as_term() {
+            Some(v) => self.is_closed(v),
+            None => self.is_closed_compound(child),
+        })
+    }
+
+    /// Check that every variable of the given logic term is associated in the map
+    pub fn is_closed(&self, v: &LTerm<U, E>) -> bool {
+        match v.as_ref() {
+            LTermInner::Var(_, _) => self.contains_key(v),
+            LTermInner::Cons(u, v) => self.is_closed(u) && self.is_closed(v),
+            LTermInner::Compound(compound) => match compound.as_term() {
+                Some(term) => self.is_closed(term),
+                None => self.is_closed_compound(compound.as_ref()),
+            },
+            _ => true,
+        }
+    }
+
     /// Returns a list of variables referenced by the substitution map
     pub fn get_vars(&self) -> Vec<&LTerm<U, E>> {
         let mut vars = vec![];
